@@ -2299,6 +2299,15 @@ TopologyKernel::adjacent_halfface_in_cell(HalfFaceHandle _halfFaceHandle,
       }
     }
   }
+  if (skipped && !idx.is_valid()) {
+    // No other halfface of the cell contains the opposite halfedge. If the cell
+    // also contains the opposite halfface (e.g. a cell made of both halffaces of
+    // one face), that one is the neighbor across this edge.
+    const HalfFaceHandle opp_hfh = opposite_halfface_handle(_halfFaceHandle);
+    if (incident_cell(opp_hfh) == ch) {
+      return opp_hfh;
+    }
+  }
   return InvalidHalfFaceHandle;
 }
 
